@@ -246,7 +246,19 @@ def run_check(chk, replay, prop, gen_cases, evaluate, rule, model_ops=('dec', 'r
               model_norm=None, extra_dist=None, post=None):
     """gen_cases(gb, rng, tier) -> [case dict with 'line', ...]; evaluate(gb, case, out_line) -> [(reason, cls)]"""
     gb = genrun.setup(chk, configs=configs)
-    gate, runner = gate_and_runner(chk, prop)
+    # the emitted code of this run, lowered to ops (fam/gen/coq/Generated/EmittedOps.v): part of the family's Coq project
+    from . import genops
+    for attempt in range(4):
+        ok_ops, msg_ops, st_ops = genops.regen(gb)
+        gate, runner = gate_and_runner(chk, prop)
+        # the generated table is one file of the family's Coq project, shared by every check process on this machine (also by
+        # runs against a scratch copy of the repository): if another process replaced it between the lowering and the end of
+        # the proof gate, the gate was not about THIS run's emitted code -- lower and check again
+        if prop not in genops.PROPS or not ok_ops or genops.current_digest() == st_ops.get('digest'):
+            break
+    chk.cov['emitted_ops'] = dict(ok=ok_ops, message=msg_ops[:300], stats=st_ops, gate_attempts=attempt + 1)
+    if not ok_ops and prop in genops.PROPS:
+        chk.violation('translator failed (emitted code -> ops): ' + msg_ops[:600], dict(kind='translator', output=msg_ops[:3000]), no_input=True)
     chk.cov['rule'] = rule
     if not gb.ok:
         return chk.finish()
